@@ -7,6 +7,7 @@ VARIABLES prog, n
 P(v) == WFromInt(W, v)
 Num(v) == [k |-> "num", v |-> P(v)]
 Str(b) == [k |-> "str", b |-> b]
+RawStr(b) == [k |-> "str", b |-> b, raw |-> TRUE]
 Ref(x) == [k |-> "ref", n |-> x]
 Par(i) == [k |-> "param", i |-> i]
 Sum(a, b) == [k |-> "sum", a |-> a, b |-> b]
@@ -30,6 +31,9 @@ Prelude == <<
   \* comment characters inside quoted strings of a macro body and of a define: a;b  a//b  x;y
   [k |-> "macro", n |-> "mq", np |-> 0, body |-> <<D(1, <<Str(<<97, 59, 98>>)>>), D(1, <<Str(<<97, 47, 47, 98>>), Num(3)>>)>>],
   [k |-> "define", n |-> "KS", v |-> Str(<<120, 59, 121>>)],
+  \* strings that hold a tabulator or the byte 255 as they are (raw: not spelled with an escape): a<TAB>b, <255>A, x<TAB>y
+  [k |-> "macro", n |-> "mt", np |-> 0, body |-> <<D(1, <<RawStr(<<97, 9, 98>>)>>), D(1, <<RawStr(<<255, 65>>), Num(3)>>)>>],
+  [k |-> "define", n |-> "KT", v |-> RawStr(<<120, 9, 121>>)],
   \* numbers next to parameters in one body (the renderer may name the parameters h, b, q and spell the numbers 10h, 101b, 5q)
   [k |-> "macro", n |-> "mh", np |-> 3, body |-> <<D(1, <<Par(1), Num(16), Num(5), Par(2)>>), D(2, <<Num(300), Par(3), Num(7)>>)>>]
 >>
@@ -40,6 +44,8 @@ Body ==
      {D(1, <<Ref("KA")>>), D(2, <<Ref("KB")>>), D(4, <<Ref("EA")>>), D(1, <<Sum(Ref("KA"), Num(3))>>), D(1, <<Num(9)>>),
       D(2, <<Ref("KB"), Ref("EA")>>), D(1, <<Ref("KB")>>)}
   \cup {[k |-> "invoke", n |-> "m0", args |-> <<>>], [k |-> "invoke", n |-> "mq", args |-> <<>>], D(1, <<Ref("KS")>>)}
+  \cup {[k |-> "invoke", n |-> "mt", args |-> <<>>], D(1, <<Ref("KT")>>), [k |-> "invoke", n |-> "ms", args |-> <<RawStr(<<97, 9, 98>>)>>],
+        [k |-> "invoke", n |-> "ms", args |-> <<RawStr(<<255, 66>>)>>]}
   \cup {[k |-> "invoke", n |-> "mh", args |-> <<a, Num(2), Num(9)>>] : a \in {Num(1), Ref("KA")}}
   \cup {[k |-> "invoke", n |-> "m1", args |-> <<a>>] : a \in Args1}
   \cup {[k |-> "invoke", n |-> "mn", args |-> <<a>>] : a \in Args1}
